@@ -18,7 +18,7 @@ from checks import c13_models as Z
 UNIT_TIMEOUT = 1500.0
 ENGINES = ['TwoSiteDMRGEngine', 'SingleSiteDMRGEngine']
 MIXERS = [None, True, 'DensityMatrixMixer', 'SubspaceExpansion']
-DIAGS = ['default', 'lanczos', 'arpack', 'ED_block', 'ED_all']
+DIAGS = ['default', 'lanczos', 'arpack', 'ED_block', 'ED_all', 'lanczos+E_shift']
 SCHEDULES = [('full', 'long'), ('list', 'long'), ('trunc', 'short'), ('full', 'short')]  # (chi, sweeps)
 TOL = 1e-8
 
@@ -106,6 +106,10 @@ def dmrg_options(c):
     if chi == 'list':
         opt['chi_list'] = {0: 2, (3 if long else 1): 100}
         del opt['trunc_params']['chi_max']
+    if c['diag'] == 'lanczos+E_shift':
+        # documented eigensolver option: the spectrum is shifted during the Lanczos run only, the returned energy is not
+        opt['diag_method'] = 'lanczos'
+        opt['lanczos_params'] = dict(E_shift=-6.5)
     if c['diag'] == 'default':
         opt['max_N_for_ED'] = 10  # so that both branches (ED for small, Lanczos for larger effective H) occur
     return opt
